@@ -593,6 +593,19 @@ func c17Corpus(r *fw.Rec, s corpus.Source) {
 	}
 	r.TallyN("references", "corpus:ref.metadata", c.Refs["ref.metadata"])
 	r.TallyN("references", "corpus:cyclic.metadata", c.Refs["cyclic.metadata"])
+	// the nodes of a parsed module are its own: a second parse of the same text
+	// shares no metadata object with the first (a node shared between modules is
+	// numbered, edited and printed by both)
+	if mTwin, e2, p2 := parseGuard(s.ID, text); p2 == "" && e2 == nil && mTwin != nil {
+		o1, o2 := graph.MetadataObjects(m), graph.MetadataObjects(mTwin)
+		for p, typ := range o1 {
+			if _, shared := o2[p]; shared {
+				r.Violate(fw.Violation{Key: "corpus-node-shared-between-parses/" + s.ID, Input: text, What: "two parses of the same text share a metadata object of type " + typ + ": the nodes of a module are not its own"})
+				return
+			}
+		}
+		r.TallyN("references", "corpus:objects-not-shared-between-parses", len(o1))
+	}
 	y, pp := printGuard(m)
 	if pp != "" {
 		return
